@@ -55,7 +55,14 @@ type attrsEngine struct {
 	// (the proto handed to the runtime was repaired so that the rest of the file can be compared)
 	rv        map[string]string
 	walkCache map[string][]string
+	// noConc: skip the concurrent first observation (the generator's scratch engine: its compile result
+	// is not the one Exec observes)
+	noConc bool
 }
+
+// attrsConcSample: every attrsConcSample-th chunk of elements gets the concurrent first observation
+// (messages with required fields always do). Set by Gen per tier; 1 = everything.
+var attrsConcSample = 1
 
 func init() { Register("attrs", func() Engine { return &attrsEngine{} }) }
 
@@ -268,6 +275,12 @@ func (e *attrsEngine) compile() string {
 	}
 	e.rfiles, e.rall = rfs, reg
 	e.status = "ok"
+	// first observation of the freshly compiled descriptors: by several goroutines at once
+	if !e.noConc {
+		if d := e.concFirstObservation(attrsConcSample); d != "" {
+			return d
+		}
+	}
 	return "ok"
 }
 
@@ -1060,7 +1073,7 @@ func attrsCase(srcs map[string]string, order []string, tolerant bool) []string {
 	c = append(c, "compile")
 	// run the case once here: facts are read off the compiled protos, the outcome of the view walk is
 	// recorded in the view ops
-	ge := &attrsEngine{}
+	ge := &attrsEngine{noConc: true}
 	ge.Reset()
 	for _, p := range order {
 		ge.Exec("src " + p + " " + attrsHexS(srcs[p]))
@@ -2368,6 +2381,12 @@ func (e *attrsEngine) Gen(r *Rand, tier string) [][]string {
 	}
 	cases = append(cases, attrsCase(map[string]string{"w5.proto": "syntax = \"proto2\";\npackage a.b;\nmessage M { oneof o { group G = 1 { optional int32 z = 1; } int32 i = 2; } optional M m = 3 [weak = true]; }\n"},
 		[]string{"w5.proto"}, false))
+	// 0e. many messages with many required fields (first observed concurrently)
+	nreq := 40
+	if thorough {
+		nreq = 150
+	}
+	cases = append(cases, attrsRequiredCases(nreq)...)
 	// 0d. directed: kitchen-sink files for the view walker, custom features, raw default strings
 	cases = append(cases, attrsSinkCases()...)
 	nraw := 60
